@@ -37,6 +37,14 @@ CHECKS.update({
              text="Metamorphic generated-input search over classes (global/namespaced, templated, virtual, with enums/serialize) and unrelated declarations, both serialization settings. Both sides come from gtwrap.",
              note="Trusted: vlib.matnorm id normalisation; the 'nothing else depends on X' side condition computed on the model (no typedef names X).", ref="3/C15"),
 })
+CHECKS.update({
+ 'C14': dict(tech="Hypothesis-generated (input, configuration, history, parallel job set) + differential oracle against an in-process reference run (byte equality of every output) + audit-hook file-access whitelist observed in child processes",
+             text="Generated configurations (hash seed, cwd, locale x UTF-8 mode, earlier wrap_file calls on one PybindWrapper, stale previous output, repetition, 1/3/5 concurrent script/API processes in one build directory): outputs byte-identical to the reference; only requested files written, only inputs/templates/interpreter files read. Parallel runs sample OS schedules (the harness does not own the scheduler).",
+             note="Trusted: vlib/c14_driver.py (sys.addaudithook in the child), the read whitelist in checks/c14.py (interpreter prefixes, gtwrap package, inputs).", ref="3/C14"),
+ 'C16': dict(tech="Hypothesis-generated file splits, tails and option sets + composition oracles (main/sub-module structure and body equality, MATLAB list == concatenation) + subprocess differential script vs library API",
+             text="Generated-input search: module split into 1..4 files with adversarial final characters; main TU declares/invokes one initialiser per part in order; every part's TU equals wrapping its text alone; MATLAB wrap(list) == wrap(joined); scripts byte-identical to the library API (1 in 8 cases). Linking/importing the parts is left to C04.",
+             note="Trusted: section markers in the harness's module template (vlib.wraps.PYBIND_TPL), which is 'the user-supplied module template'.", ref="3/C16"),
+})
 PENDING = {}
 
 def main():
